@@ -2,7 +2,7 @@
 from engine.facts import CannotDecide, callee_is, path_matches, strip_generics
 from engine.prov import const_int
 from engine import cfg
-from .common import Table, client_dispatch_poll, reachable_local_fns, norm_path, remaining_time, message_send_sites
+from .common import guarded_by_variant, Table, client_dispatch_poll, reachable_local_fns, norm_path, remaining_time, message_send_sites
 
 EXTRA_CONFIGS = ('serde1', 'serde-transport')   # feature configurations re-analysed in the thorough tier
 META = {
@@ -14,6 +14,17 @@ META = {
             'server never rewrites it before handing the context to the handler; the span-scoped deadline stored by set_context is the request\'s and is what context::current() reads back.',
     'note': 'Trusted: Duration (de)serialisation in serde and the codecs; Instant arithmetic; tracing-opentelemetry extension storage. Not decided: numeric inequalities with real clocks.',
 }
+
+
+def _on_none_edge_of_checked_add(F, P, r):
+    ru = P.unbound(r)
+    if ru[0] != 'call':
+        return False
+    f = F.fns.get(ru[1])
+    if f is None:
+        return False
+    pred = lambda x: any(P.is_call(q, 'Instant::checked_add') for q, _ in P.root(x))
+    return bool(guarded_by_variant(F, P, f, ru[2], pred, ['None']))
 
 
 def run(ctx):
@@ -86,8 +97,8 @@ def run(ctx):
                 det.append('base of the sum is not Instant::now()')
             if from_wire:
                 primary += 1
-            elif const_add and ('t', 'else') in p:
-                pass  # saturation fallback: now + constant far future
+            elif const_add and (('t', 'else') in p or _on_none_edge_of_checked_add(F, P, r)):
+                pass  # saturation fallback: now + constant far future, taken only when the checked sum overflowed
             else:
                 ok = False
                 det.append('addend from %s' % [P.describe(x) for x, _ in addend])
